@@ -39,6 +39,12 @@ pub trait Chain<M: Math>: SamplerStats<M> {
     fn expanded_draw(&mut self) -> Result<(Box<[f64]>, M::ExpandedVector, Self::Stats, Progress)>;
 
     fn math(&self) -> Ref<'_, M>;
+
+    /// Verification seam (off by default): adaptation schedule counters, if the strategy has any.
+    #[cfg(nuts_rs_verif)]
+    fn verif_adapt_counters(&self) -> Option<crate::verif::AdaptCounters> {
+        None
+    }
 }
 
 pub struct NutsChain<M, R, A>
@@ -124,6 +130,12 @@ pub trait AdaptStrategy<M: Math>: SamplerStats<M> {
     fn new_collector(&self, math: &mut M) -> Self::Collector;
     fn is_tuning(&self) -> bool;
     fn last_num_steps(&self) -> u64;
+
+    /// Verification seam (off by default).
+    #[cfg(nuts_rs_verif)]
+    fn verif_counters(&self) -> Option<crate::verif::AdaptCounters> {
+        None
+    }
 }
 
 impl<M, R, A> Chain<M> for NutsChain<M, R, A>
@@ -209,6 +221,11 @@ where
 
     fn math(&self) -> Ref<'_, M> {
         self.math.borrow()
+    }
+
+    #[cfg(nuts_rs_verif)]
+    fn verif_adapt_counters(&self) -> Option<crate::verif::AdaptCounters> {
+        self.strategy.verif_counters()
     }
 }
 
